@@ -27,9 +27,15 @@ LEVEL = "exploration"
 #    BEFORE ``Core.add`` renumbers the incoming assembly, so the stationary block that stays in the core is renamed
 #    while its old name stays in ``blocksByName``, and the fresh stationary block that leaves with the outgoing assembly
 #    keeps its placeholder name and is never entered in ``blocksByName`` (it cannot be found in the pool).
+# 3. The core's name tables are fed by ``Core.add`` only.  Assemblies that reach the pool by another route - listed in
+#    the sfp grid contents of the blueprints (armi's own test input does), or restored by ``Database.load`` - are in the
+#    pool but ``getAssemblyByName`` / ``getBlockByName`` raise KeyError for them until somebody calls
+#    ``core.regenAssemblyLists()`` (armi.testing.loadTestReactor does; Case/Operator start-up and restart do not).  The
+#    main search makes that call whenever the blueprint pre-populates the pool.
 SIG_NOGRID = "discharge/default-sfp-has-no-grid"
 SIG_FRESH = "dischargeSwap/fresh-incoming-stationary-block-names"
-EXCLUDE_KNOWN = {SIG_NOGRID: True, SIG_FRESH: True}
+SIG_POOLNAMES = "lookup-by-name/pool-assembly-not-placed-by-core-never-registered"
+EXCLUDE_KNOWN = {SIG_NOGRID: True, SIG_FRESH: True, SIG_POOLNAMES: True}
 
 ASSUMPTIONS = [
     "the FuelHandler is driven through a two-attribute stand-in operator (.r, .cs): swapAssemblies, swapCascade, "
@@ -67,6 +73,8 @@ def _op():
             "a": idx,  # first operand, modulo the valid targets
             "b": idx,  # second operand / pool member
             "more": st.lists(idx, min_size=0, max_size=3),  # further cascade members
+            # cascade: positions (modulo length + 1) at which a None is put into the list, as findAssembly results can be
+            "none": st.one_of(st.just([]), st.lists(st.integers(0, 5), min_size=0, max_size=2)),
             "match": st.sampled_from([True, False]),  # prefer partners with the same stationary layout (else any partner)
             "charged": st.sampled_from([True, False]),  # prefer an assembly charged earlier by a discharge swap as first operand
             "src": st.sampled_from(["pool", "fresh"]),  # incoming assembly: blueprints or pool (if not empty)
@@ -92,6 +100,9 @@ def strategy(tier):
             # and loaded back, as a restart / snapshot / post-processing run shuffles it (Database.load marks every
             # assembly with lastLocationLabel = Assembly.DATABASE)
             "start": st.sampled_from(["built", "db-loaded", "built", "built"]),
+            # assemblies (design indices) listed in the sfp grid contents of the blueprint: a pool that has content
+            # from the start, whether or not trackAssems is on
+            "prepool": st.one_of(st.just([]), st.just([]), st.lists(st.integers(0, 2), min_size=1, max_size=3)),
         }
     )
 
@@ -102,6 +113,8 @@ def known_strategy(tier):
     def nogrid(c):
         c = copy.deepcopy(c)
         c["spec"]["sfp"] = False
+        c["prepool"] = []
+        c["start"] = "built"
         c["track"] = True
         c["enabled"] = ["remove", "dswap"]
         for op in c["program"]:
@@ -111,25 +124,46 @@ def known_strategy(tier):
     def fresh(c):
         c = copy.deepcopy(c)
         c["spec"]["sfp"] = True
+        c["prepool"] = []
+        c["start"] = "built"
         c["stationary"] = "grid plate"
         c["plates"] = "bottom"
         c["enabled"] = ["dswap"]
+        if len(c["spec"]["heights"]) == 1:  # a plate needs a second block above it
+            c["spec"]["heights"].append(c["spec"]["heights"][0])
+            for d in c["spec"]["designs"]:
+                d["kinds"].append("fuel")
+                d["enrich"].append(d["enrich"][0])
+                d["xs"].append(d["xs"][0])
         for op in c["program"]:
             op["src"] = "fresh"
             op["match"] = True
+        return c
+
+    def fresh_untracked(c):
+        c = fresh(c)
+        c["track"] = False  # the outgoing assembly is purged in the same step
+        return c
+
+    def poolnames(c):
+        c = copy.deepcopy(c)
+        c["prepool"] = c["prepool"] or [0]
+        c["enabled"] = ["dswap", "swap"]
         return c
 
     base = st.fixed_dictionaries(
         {
             "spec": rg.reactor_spec(max_rings=2, max_blocks=3, min_assems=3, allow_pin_grid=False),
             "plates": st.just("asis"),
-            "track": st.sampled_from([True, False]),
+            "start": st.sampled_from(["built", "built", "db-loaded"]),
+            "prepool": st.lists(st.integers(0, 2), min_size=0, max_size=2),
+            "track": st.sampled_from([False, True]),
             "stationary": st.sampled_from(["grid plate", "none"]),
             "enabled": st.just(["dswap"]),
             "program": st.lists(_op(), min_size=1, max_size=3),
         }
     )
-    return st.tuples(st.sampled_from([nogrid, fresh]), base).map(lambda t: t[0](t[1]))
+    return st.tuples(st.sampled_from([fresh_untracked, nogrid, fresh, poolnames, fresh_untracked]), base).map(lambda t: t[0](t[1]))
 
 
 # ---------------------------------------------------------------------------------------------
@@ -168,6 +202,7 @@ class _Model:
         self.approx = {}  # bid -> ([areas], [full masses])
         self.charged_by_dswap = set()
         self.cells = []  # every location of the modelled domain within the generated number of rings
+        self.templates = set()  # id() of the blueprints' template assemblies and their blocks
 
     # -- geometry ----------------------------------------------------------------------------
     def factor(self, ij):
@@ -295,8 +330,9 @@ def _close(xs, ys, rel):
 
 
 def _check(out, M, r, where, deep, ctx=None):
+    ctx = ctx or {}
     """Compare armi with the model.  ``deep``: aids whose contents are compared in full (all structure is always
-    compared).  ``ctx``: signature that replaces the block-name lookup signatures (known-shape attribution)."""
+    compared).  ``ctx``: {default signature: signature of the known shape this step is an instance of}."""
     from vp.model import observe as ob
 
     core = r.core
@@ -395,21 +431,21 @@ def _check(out, M, r, where, deep, ctx=None):
         except KeyError:
             got = None
         if got is not a:
-            bad("lookup-by-name/assembly-not-found", lambda: "getAssemblyByName(%r) gives %s, expected %s" % (nm, None if got is None else A(got), M.name(aid)))
+            bad(ctx.get("lookup-by-name/assembly-not-found", "lookup-by-name/assembly-not-found"), lambda: "getAssemblyByName(%r) gives %s, expected %s" % (nm, None if got is None else A(got), M.name(aid)))
     bnames = {}
     for aid in live:
         for k, bid in enumerate(M.stack[aid]):
             b = M.B[bid]
             nm = b.getName()
             if nm in bnames:
-                bad(ctx or "lookup-by-name/two-blocks-one-name", lambda: "block %d of %s and another live block are both named %r" % (k, M.name(aid), nm))
+                bad(ctx.get("lookup-by-name/two-blocks-one-name", "lookup-by-name/two-blocks-one-name"), lambda: "block %d of %s and another live block are both named %r" % (k, M.name(aid), nm))
             bnames[nm] = bid
             try:
                 got = core.getBlockByName(nm)
             except KeyError:
                 got = None
             if got is not b:
-                bad(ctx or "lookup-by-name/block-not-found", lambda: "getBlockByName(%r) (block %d of %s) gives %r" % (nm, k, M.name(aid), got))
+                bad(ctx.get("lookup-by-name/block-not-found", "lookup-by-name/block-not-found"), lambda: "getBlockByName(%r) (block %d of %s) gives %r" % (nm, k, M.name(aid), got))
     for aid in M.purged:
         a = M.A[aid]
         try:
@@ -426,18 +462,25 @@ def _check(out, M, r, where, deep, ctx=None):
                 got = None
             if got is b:
                 bad("lookup-by-name/purged-block-returned", lambda: "getBlockByName(%r) returns a block of the purged %s" % (b.getName(), M.name(aid)))
+    # regenAssemblyLists() also enters the blueprints' template assemblies (getAssemblies(includeBolAssems=True)): they
+    # were never part of the inventory, so they are neither "found" nor "purged"
+    templates = M.templates
     for nm in sorted(core.assembliesByName):
         a = core.getAssemblyByName(nm)
+        if id(a) in templates:
+            continue
         if id(a) not in live_a:
             bad("lookup-by-name/purged-assembly-returned", lambda: "getAssemblyByName(%r) returns %s which is neither in the core nor in the pool" % (nm, A(a)))
         elif a.getName() != nm:
             bad("lookup-by-name/assembly-under-stale-name", lambda: "getAssemblyByName(%r) returns %s" % (nm, A(a)))
     for nm in sorted(core.blocksByName):
         b = core.getBlockByName(nm)
+        if id(b) in templates:
+            continue
         if id(b) not in live_b:
             bad("lookup-by-name/purged-block-returned", lambda: "getBlockByName(%r) returns %r which is in no assembly of the core or the pool" % (nm, b))
         elif b.getName() != nm:
-            bad(ctx or "lookup-by-name/block-under-stale-name", lambda: "getBlockByName(%r) returns the block now named %r" % (nm, b.getName()))
+            bad(ctx.get("lookup-by-name/block-under-stale-name", "lookup-by-name/block-under-stale-name"), lambda: "getBlockByName(%r) returns the block now named %r" % (nm, b.getName()))
 
     # --- contents -----------------------------------------------------------------------------
     for aid in live + M.purged:
@@ -499,6 +542,15 @@ def _apply_plates(spec, mode):
     return spec
 
 
+def _with_pool_contents(text, specifiers):
+    """The blueprint text of vp.gen.reactor with assemblies listed in the sfp grid (as armi's refSmallSfpGrid.yaml does)."""
+    anchor = "    sfp:\n        geom: cartesian\n        symmetry: full\n        lattice pitch: {x: 50.0, y: 50.0}\n"
+    if text.count(anchor) != 1:
+        raise AssertionError("harness: sfp grid section of the shared generator changed")
+    lines = ["        grid contents:"] + ["            [%d,0]: %s" % (n, sp) for n, sp in enumerate(specifiers)]
+    return text.replace(anchor, anchor + "\n".join(lines) + "\n")
+
+
 def _through_database(cs, bp, r):
     """Write the reactor with a real Database and return the reactor loaded from it (what Database.load gives a restart:
     nothing is called on it afterwards; the pool is empty at this point, so no pool assembly needs a name lookup yet)."""
@@ -531,7 +583,12 @@ def _execute(case, exclude):
     if track and not spec.get("sfp") and exclude.get(SIG_NOGRID):
         spec["sfp"] = True
         out.label("excluded:" + SIG_NOGRID)
-    cs, bp, r = rg.build(spec, {"trackAssems": track, "stationaryBlockFlags": list(flags)})
+    prepool = [d % len(spec["designs"]) for d in case.get("prepool", [])]
+    text = None
+    if prepool:
+        spec["sfp"] = True  # contents need the explicit pool grid
+        text = _with_pool_contents(rg.render(spec), [spec["designs"][d]["specifier"] for d in prepool])
+    cs, bp, r = rg.build(spec, {"trackAssems": track, "stationaryBlockFlags": list(flags)}, text=text)
     start = case.get("start", "built")
     if start == "db-loaded":
         r = _through_database(cs, bp, r)
@@ -541,6 +598,7 @@ def _execute(case, exclude):
     fh = fuelHandlers.FuelHandler(_Operator(r, cs))
     nogrid = track and sfp is not None and sfp.spatialGrid is None
 
+    known_shape = False
     M = _Model(spec, stat_kinds, track)
     if spec["geom"].startswith("hex"):
         M.cells = [tuple(c) for c in rg.hex_cells(spec["rings"], spec["symmetry"])]
@@ -552,6 +610,23 @@ def _execute(case, exclude):
         aid = M.register(a, design_at[ij])
         M.at[ij] = aid
         M.where[aid] = ij
+    init_ctx = None
+    if prepool:
+        stored = {(int(a.spatialLocator.i), int(a.spatialLocator.j)): a for a in sfp}
+        if sorted(stored) != [(n, 0) for n in range(len(prepool))]:
+            raise AssertionError("harness: pool not filled as specified: %r" % (sorted(stored),))
+        for n, d in enumerate(prepool):
+            M.pool.append(M.register(stored[(n, 0)], spec["designs"][d]))
+        out.label("pool:pre-populated", "pool:pre-populated-track-" + ("on" if track else "off"))
+        if exclude.get(SIG_POOLNAMES):
+            out.label("excluded:" + SIG_POOLNAMES)
+            core.regenAssemblyLists()  # what armi.testing.loadTestReactor does for the same reason
+        else:
+            init_ctx = {"lookup-by-name/assembly-not-found": SIG_POOLNAMES, "lookup-by-name/block-not-found": SIG_POOLNAMES}
+            known_shape = True
+    for t in bp.assemblies.values():
+        M.templates.add(id(t))
+        M.templates.update(id(b) for b in t)
     if len(M.where) != len(spec["cells"]) or core._trackAssems != track or [str(f) for f in core.stationaryBlockFlagsList] != [
         "Flags." + f for f in flags
     ]:
@@ -561,14 +636,14 @@ def _execute(case, exclude):
               "stationary:" + case["stationary"], "sfp:" + ("explicit" if spec.get("sfp") else "default"),
               "rings:%d" % spec["rings"], "assemblies:%s" % ("<=6" if len(M.where) <= 6 else ("7-19" if len(M.where) <= 19 else "20+")),
               "plates:" + case["plates"])
-    if not _check(out, M, r, "initial state", set(M.live())):
+    if not _check(out, M, r, "initial state", set(M.live()), init_ctx):
+        out.nontrivial = exclude is _NO_EXCLUSION and known_shape
         return out
 
     enabled = [k for k in KINDS if k in case["enabled"]]
     executed = 0
     dswap_done = False
     touched_charged = False
-    known_shape = False
     nsteps = len(case["program"])
 
     def fresh(design):
@@ -639,11 +714,23 @@ def _execute(case, exclude):
                 rest.remove(y)
                 members.append(y)
             pos_labels(*members)
-            desc = "%s(%s)" % (kind, ", ".join(M.name(m) for m in members))
+            # A cascade list may hold None where a findAssembly call found nothing: swapCascade skips such a level ("Skipping
+            # level ... because it is None") and swapAssemblies skips a swap with a None operand ("Cannot swap None
+            # assemblies ... Skipping swap"); so a leading None moves nothing, any other None is passed over.
+            seq = list(members)
+            if kind == "cascade":
+                for pos in op.get("none", []):
+                    seq.insert(pos % (len(seq) + 1), None)
+                if None in seq:
+                    inner = [i for i, m in enumerate(seq) if m is None and 0 < i < len(seq) - 1 and any(t is not None for t in seq[i + 1:])]
+                    out.label("cascade:none-" + ("leading" if seq[0] is None else ("interior" if inner else "trailing")))
+            desc = "%s(%s)" % (kind, ", ".join("None" if m is None else M.name(m) for m in seq))
             exchanged = 0
             refuse = False
             done = []
-            for y in members[1:]:
+            for y in ([] if seq[0] is None else seq[1:]):
+                if y is None:
+                    continue
                 n = len(M.layout(x))
                 if not M.swap(x, y):
                     refuse = True
@@ -651,7 +738,7 @@ def _execute(case, exclude):
                 exchanged = max(exchanged, n)
                 done.append(y)
             touched.update(members)
-            objs = [M.A[m] for m in members]
+            objs = [None if m is None else M.A[m] for m in seq]
             raised = False
             try:
                 if kind == "swap":
@@ -664,7 +751,7 @@ def _execute(case, exclude):
                 raised = True
             if refuse and not raised:
                 out.fail("refusal/different-stationary-layouts-accepted",
-                         "step %d %s: layouts %s, no ValueError" % (step, desc, [M.layout(m) for m in members]))
+                         "step %d %s: layouts %s, no ValueError" % (step, desc, [None if m is None else M.layout(m) for m in seq]))
                 return out
             out.label("op:" + kind, "refused" if refuse else "exchange:%s" % ("0" if exchanged == 0 else ("1" if exchanged == 1 else "2+")))
             if kind == "cascade":
@@ -678,7 +765,8 @@ def _execute(case, exclude):
             lay = M.layout(x)
             if source == "fresh":
                 if not refuse and lay:
-                    ctx = SIG_FRESH
+                    ctx = {k: SIG_FRESH for k in ("lookup-by-name/two-blocks-one-name", "lookup-by-name/block-not-found",
+                                                  "lookup-by-name/block-under-stale-name")}
                     known_shape = True
                 incoming = fresh(incoming)
             pos_labels(x)
@@ -787,12 +875,14 @@ PARTS = [
               "start state {as built, 1 in 4: written to a Database and loaded back} x "
               "trackAssems on/off x stationaryBlockFlags {none, grid plate, grid plate+reflector} x program of <= 14 operations drawn "
               "from a random subset of {swapAssemblies, swapCascade(2-5 members), dischargeSwap(fresh|pool), Core.add(fresh|pool) at a "
-              "free location, removeAssembly(discharge True|False)}, operands modulo the valid targets (centre first); oracle = "
+              "free location, removeAssembly(discharge True|False)}, operands modulo the valid targets (centre first), cascade lists "
+              "optionally with None entries, pool optionally pre-populated through the sfp grid contents (also with tracking off); oracle = "
               "location/pool/purged/block-stack model compared after every step (children, locators, childrenByLocator, string "
               "location lookup, name lookups incl. purged, inventory, contents), refusals must raise and leave the model state; "
               "non-trivial = >= 3 executed operations incl. a discharge swap and a later swap/cascade moving the charged assembly"),
-    Part("known_shapes", known_execute, strategy=known_strategy, budget={"quick": 24, "thorough": 300}, procs={"quick": 1, "thorough": 4},
-         rule="the two shapes the main search excludes by construction, generated with the exclusion off: (a) trackAssems on with the "
+    Part("known_shapes", known_execute, strategy=known_strategy, budget={"quick": 120, "thorough": 600}, procs={"quick": 2, "thorough": 4},
+         rule="the three shapes the main search excludes by construction, generated with the exclusion off: (a) trackAssems on with the "
               "default grid-less SFP and a discharge; (b) dischargeSwap of a fresh blueprint assembly with a non-empty stationary "
-              "exchange; same oracle; non-trivial = the shape occurred"),
+              "exchange (tracking on and off); (c) a pool pre-populated by the blueprints (or restored by Database.load) without "
+              "regenAssemblyLists(); same oracle, every other signature is still reported; non-trivial = the shape occurred"),
 ]
